@@ -11,8 +11,8 @@ from .rules_lattice import flagset
 from .rules_slots import Slot, optional_facts, slot_table
 from .rules_tables import binary_rows, unary_rows
 from .terms import (Attr, BoundMethod, Call, ClassRef, Comp, Const, EnumMember, Evaluator, Ext, FuncRef, GlobalVal, Ite, Lam, Loop, New, Op,
-                    Outcome, Sym, Term, TupleT, _State, alternatives, guards_repr, norm_guards, flat_guards, walk)
-from .util import all_terms, call_name, call_recv, method_calls, none_test, outcome_terms
+                    Outcome, Sym, Term, TupleT, _State, alternatives, guards_repr, norm_guards, flat_guards, helper_inline, walk)
+from .util import search_tests, all_terms, call_name, call_recv, method_calls, none_test, outcome_terms
 
 TYPE_TOKEN_CLASSES = ('TypeToken', 'EnumeratedType', 'RangedType', 'MessageType', 'ArrayType')
 
@@ -584,27 +584,28 @@ def A5(ctx: Ctx) -> RuleResult:
     self_e = Sym('self', 'EnumeratedType')
     kinds = {}
     raises = False
+
+    def isinstance_tests(gs):
+        """second arguments of `not isinstance(<value>, X)` among the (flattened) tests"""
+        return [t.args[1] for t, pol in flat_guards(tuple(gs)) if isinstance(t, Call) and isinstance(t.func, Ext) and t.func.name == 'isinstance' and not pol and len(t.args) == 2]
     for v in et.all_validators('values'):
         params = v.params()
-        for o in ctx.ev.run(v, {params[0]: self_e, params[2]: Sym('values')}):
-            gs = norm_guards(o.guards)
-            exp = None
-            for e in o.effects:
-                if isinstance(e, Loop):
-                    for rg, exc in e.raises:
-                        for t, pol in norm_guards(rg):
-                            if isinstance(t, Call) and isinstance(t.func, Ext) and t.func.name == 'isinstance' and not pol and len(t.args) == 2:
-                                raises = True
-                                exp = t.args[1]
-            for t, pol in gs:
-                if isinstance(t, Call) and isinstance(t.func, Ext) and t.func.name == 'isinstance' and not pol and o.kind == 'raise':
+        for k in ('BOOL', 'NUMBER', 'STRING'):
+            # the validator specialised to one kind of enumeration (helpers and tables of hpl.types looked through)
+            ev_k = Evaluator(ctx.model, inline=helper_inline(('hpl.types',)), assume={Attr(self_e, 'type'): EnumMember('DataType', k)})
+            for o in ev_k.run(v, {params[0]: self_e, params[2]: Sym('values')}):
+                found = []
+                for e in o.effects:
+                    if isinstance(e, Loop):
+                        for rg, exc in e.raises:
+                            found += isinstance_tests(rg)
+                if o.kind == 'raise':
+                    found += isinstance_tests(o.guards)
+                    for it, each, cond in search_tests(ev_k, o.guards):
+                        found += isinstance_tests(((cond, True),))
+                if found:
                     raises = True
-            for t, pol in gs:
-                if pol and isinstance(t, Op) and t.op in ('is', '==') and Attr(self_e, 'type') in t.args:
-                    other = [a for a in t.args if a != Attr(self_e, 'type')][0]
-                    fs = flagset(ctx, other)
-                    if fs and len(fs) == 1 and exp is not None:
-                        kinds[next(iter(fs))] = exp
+                    kinds.setdefault(k, found[0])
     want = {'BOOL': 'bool', 'NUMBER': 'int', 'STRING': 'str'}
     for k, w in want.items():
         got = kinds.get(k)
